@@ -43,7 +43,7 @@ from zoo import meshes as Z
 
 PROPERTY = "C08"
 
-LETTERS = ["T", "R90", "Rg", "S"]
+LETTERS = ["T", "R90", "Rg", "S", "Q"]  # Q = read-only queries on a displaced configuration (documented optional argument): identity motion
 POLYS_QUICK = ["quad", "pent", "L"]
 BATCHES = [1, 2, 3, 5, "elem", "mesh", "elem_hint"]
 TOL_EVAL = 1e-9
@@ -205,7 +205,7 @@ def describe(tier, seed):
                 "one query point evaluated correctly; distinct = fingerprint of the observed measure/centroid/flux/closure/orientation pattern "
                 "resp. of the evaluated values",
         "exhaustive": True,
-        "bound": f"histories of length <= {depth} over 4 letters ({4 ** depth} maximal histories per domain, {nd} (domain, type) pairs); "
+        "bound": f"histories of length <= {depth} over {len(LETTERS)} letters ({len(LETTERS) ** depth} maximal histories per domain, {nd} (domain, type) pairs); "
                  "gmsh polygons quad/pent/L (h=0.5; extrusions h=0.6, height 0.8, 2 layers), distorted k=2 template (2D), unit box with boundary "
                  "reconstructed by MeshIO.Surface_reconstruction (3D), planar 2D gmsh meshes moved by the 3D alphabet (embedded); point location on "
                  "template meshes of 1-8 cells: affine, general straight-sided (displaced vertex), 3D frustum cells (non-affine, planar faces), "
@@ -253,6 +253,21 @@ def _letter(name, space):
     """space '2d' (in-plane motions) or '3d'. -> (apply(mesh), Q, b)"""
     planar = space == "2d"
     r = rng("c08", name, space)
+    if name == "Q":
+        def query(m):
+            from EasyFEA.FEM._utils import MatrixType
+
+            U = rng("c08", "Qdisp", m.Nn).normal(size=(m.Nn, 3)) * 0.1
+            if planar:
+                U[:, 2] = 0.0
+            for g in m.dict_groupElem.values():
+                if g.dim == 0:
+                    continue
+                g.Get_GaussCoordinates_e_pg(MatrixType.mass, displacementMatrix=U)
+                if g.dim in (1, 2) and g.dim == m.dim - 1:
+                    g.Get_normals_e_pg(MatrixType.mass, displacementMatrix=U)
+
+        return query, np.eye(3), np.zeros(3)
     if name == "T":
         d = np.array([0.37, -0.21, 0.0 if planar else 0.45])
         return (lambda m: m.Translate(float(d[0]), float(d[1]), float(d[2]))), np.eye(3), d
